@@ -814,6 +814,13 @@ TypeOK ==
 \* Lock-order consistency: whenever a goroutine holds l1 and is about to acquire l2, l1 is left of l2 in ONE fixed
 \* hierarchy (Rank).  The held-while-acquiring relation is contained in a strict order, hence acyclic.
 LockOrder == \A g \in G : \A a \in AcqOf(g) : \A l \in HeldBy(g) : Rank(l) < Rank(a.l)
+\* What the pinned code satisfies: handleCapability takes a session's capsLock before the same session's userLock
+\* (FixCapsOrder = FALSE).  Both locks are private to one session, whose commands are handled one at a time, so the
+\* pair cannot close a cycle; that no deadlock follows is not assumed but checked by TLC (the configurations run with
+\* FixCapsOrder = FALSE and deadlock checking on).  Every other held-while-acquiring pair obeys the hierarchy.
+LockOrderCode == \A g \in G : \A a \in AcqOf(g) : \A l \in HeldBy(g) :
+                    \/ Rank(l) < Rank(a.l)
+                    \/ (~FixCapsOrder /\ l[1] = "capsLock" /\ a.l[1] = "userLock" /\ l[2] = a.l[2])
 
 \* user.statesWG covers every state in user.states
 StatesCounted == \A u \in Users : Cardinality(states[u]) <= wg.statesWG[u]
